@@ -117,7 +117,7 @@ func genC16(repo string) (string, error) {
 	if err := o.constZ(hb, "defaultFlushCount", "defaultFlushCount"); err != nil {
 		return "", err
 	}
-	for _, c := range []string{"maxSyncRegionBatchSize", "defaultHistoryBufferSize"} {
+	for _, c := range []string{"maxSyncRegionBatchSize", "defaultHistoryBufferSize", "msgSize"} {
 		if err := o.constZ(srv, c, c); err != nil {
 			return "", err
 		}
